@@ -1,4 +1,4 @@
-(* Properties/C17.v -- The vector path renders exactly the dark modules (the parts that are theorems). *)
+(* Properties/C17.v -- The vector path renders exactly the dark modules: the statement for the model of the algorithm (C17_path), pixels, unicode, and their parts. *)
 From Coq Require Import ZArith List Bool Sorted.
 From DM Require Import Model.Outcome Model.Path Spec.EvenOdd Proofs.PathProofs Proofs.PathMicro Proofs.PathGraph Proofs.PathAlgo Proofs.PathTotal Proofs.UnicodeProofs.
 Import ListNotations.
